@@ -336,24 +336,43 @@ def asgi_eof(v):
         v.check('eof-implies-all-received-bytes-were-returned', Implies(out.value, opos == cap(rc.spos, L)))
 
 
+def closed_stream(v):
+    """A stream after close(): closed, nothing buffered, no budget (what asgi_close establishes); everything else arbitrary."""
+    s, rc, L, src, opos = mk(v, closed=True)
+    v.set(s, '_buffer', b'')
+    v.set(s, '_bytes_remaining', 0)
+    return s, rc, L, src, opos
+
+
 @harness(PROP, BS + '.close')
 def asgi_close(v):
-    s, rc, L, src, opos = mk(v)
+    v.expect_covers('first-close', 'close-again')
+    again = v.choose(2, 'already-closed?')  # "it is allowed to call this method more than once; only the first call has an effect"
+    s, rc, L, src, opos = closed_stream(v) if again else mk(v)
     out = v.call(s)
     v.check('no-exception', out.exc is None)
     v.check('closed-and-empty', And(v.get(s, '_closed'), Len(v.get(s, '_buffer')) == 0, v.get(s, '_bytes_remaining') == 0))
+    v.check('close-never-asks-the-server-and-keeps-position-and-flags', And(rc.calls == 0, v.get(s, '_pos') == opos, v.get(s, '_receive') is rc, flag_kept(v, s, rc)))
+    v.cover('close-again' if again else 'first-close')
 
 
 @harness(PROP, BS + '.read', name='closed_ops')
 def asgi_closed_ops(v):
     """After close() every reading operation raises and touches nothing."""
-    s, rc, L, src, opos = mk(v, closed=True)
-    v.set(s, '_buffer', b'')
-    v.set(s, '_bytes_remaining', 0)
+    s, rc, L, src, opos = closed_stream(v)
     op = v.choose(4, 'op')
     target = [BS + '.read', BS + '.readall', BS + '.exhaust', BS + '._iter_content'][op]
-    out = v.call(s, target=target)
+    if op == 0:
+        # read() / read(n) for every n (positive, zero, -1, other negatives)
+        if v.choose(2, 'size-given?'):
+            out = v.call(s, v.int('size'), target=target)
+        else:
+            out = v.call(s, target=target)
+    else:
+        out = v.call(s, target=target)
     v.check('closed-stream-raises', out.exc is not None and (out.exc.isa(v.real('falcon.errors:OperationNotAllowed')) or out.exc.isa(ValueError)))
+    v.check('closed-stream-is-left-alone', And(rc.calls == 0, v.get(s, '_closed'), Len(v.get(s, '_buffer')) == 0, v.get(s, '_bytes_remaining') == 0,
+                                               v.get(s, '_pos') == opos, flag_kept(v, s, rc)))
 
 
 ASSUMPTIONS = [
@@ -361,5 +380,33 @@ ASSUMPTIONS = [
     'the concatenation of the body chunks is the request body',
     'absent Content-Length is treated as a budget of 2**63 bytes, as the code does (bodies are assumed shorter than that)',
 ]
-NOT_DECIDED = []
+NOT_DECIDED = [
+    'read(n) for n < -1: the code returns b"" without consuming anything; the statement is silent, only "n == 0 bytes or n == -1" is demanded (clause nonpositive-size)',
+    'the first event handed to __init__ is an http.request event (any of the four body/more_body shapes) or None: falcon.asgi.App returns before building a '
+    'request when the first event is http.disconnect, so that shape is cut',
+    'closed streams are the ones close() produces (closed, nothing buffered, no budget); position, iteration flag and server state arbitrary',
+    'constant answers fileno / isatty / readable / seekable / writable / closed are not under contract',
+]
 TRUSTED = ['ghost stub Receive (ASGI receive callable) in contracts/C07_asgi_stream.py']
+
+_S = 'falcon/asgi/stream.py'
+_CLOSED_GUARD = ("        if self._closed:\n            raise OperationNotAllowed(\n"
+                 "                'This stream is closed; no further operations on it are permitted.'\n            )\n\n")
+
+KILLS = [
+    # read(-1) no longer means "everything" (it falls through to the `size <= 0` answer b''); read() / read(None) unaffected
+    (_S, "        if size is None or size == -1:\n", "        if size is None:\n", 'BoundedStream.read#minus-one-reads-everything'),
+    # a second close() raises instead of being a no-op; the first close is unaffected
+    (_S, "        if not self._closed:\n            self._buffer = b''\n", "        if self._closed:\n            raise ValueError('already closed')\n        else:\n            self._buffer = b''\n",
+     'BoundedStream.close#no-exception'),
+    # "fast path" for read(0) placed before the closed check: read(0) on a closed stream returns b''; read() / read(n > 0) still raise
+    (_S, _CLOSED_GUARD + "        if self.eof:\n            return b''\n\n        if size is None",
+     "        if size == 0:\n            return b''\n\n" + _CLOSED_GUARD + "        if self.eof:\n            return b''\n\n        if size is None",
+     'BoundedStream.read#closed-stream-raises'),
+    # readall() (and read() through it) refuses to work once an iteration has ever been started -- also after that iteration consumed the whole body,
+    # where it must return b''; invisible while the harnesses start from _iteration_started == False
+    (_S, "        if self.eof:\n            return b''\n\n        if self._buffer:\n            next_chunk = self._buffer\n            self._buffer = b''\n            chunks = [next_chunk]\n",
+     "        if self._iteration_started:\n            raise OperationNotAllowed('This stream is already being iterated over.')\n\n"
+     "        if self.eof:\n            return b''\n\n        if self._buffer:\n            next_chunk = self._buffer\n            self._buffer = b''\n            chunks = [next_chunk]\n",
+     'BoundedStream.readall#no-exception'),
+]
